@@ -26,10 +26,10 @@ RULE = ('cases: seeded histories of 5-20 adds/removes of named cell components o
         'removal with other components present, >=2 cells; distinct by (shape, op trace).')
 ASSUMPTIONS = ['removing np.copy is observationally invisible under pandas copy-on-write (stated reach limit)',
                'generators are pure functions of the coordinates', 'F4 (LookupGenerator on low-dimensional worlds) is a known finding']
-FLOORS = {'quick': {'re_added_from_array': 26, 'column_comparisons': 8000, 'src_callable': 262, 'src_list': 258, 'src_numpy': 268, 'src_constant': 270,
-                    'src_lookup3': 300, 'src_subclassed': 200, 'lookup_table_changed_before_use': 100, 'source_mutated_before_first_read': 200, 'src_lookup_lowdim': 135, 'removals': 397, 'in_place_updates': 182, 're_added_existing_name': 94, 'rejected_unknown_removal': 300, 'source_mutations': 550,
+FLOORS = {'quick': {'sources_that_add_another_component_while_running': 31, 'sources_failing_part_way': 36, 're_added_from_array': 26, 'column_comparisons': 8000, 'src_callable': 243, 'src_list': 231, 'src_numpy': 254, 'src_constant': 248,
+                    'src_lookup3': 300, 'src_subclassed': 200, 'lookup_table_changed_before_use': 100, 'source_mutated_before_first_read': 200, 'src_lookup_lowdim': 135, 'removals': 394, 'in_place_updates': 179, 're_added_existing_name': 94, 'rejected_unknown_removal': 300, 'source_mutations': 550,
                     'get_cell_rows': 3000, 'big_worlds': 2, 'many_component_worlds': 2, 'shapes_line': 50, 'shapes_grid': 50, 'shapes_3d': 50, 'shapes_degenerate': 50,
-                    'generator_calls_checked': 1900, 'reach:Environments.DiscreteWorld.add_cell_component': 1900,
+                    'generator_calls_checked': 1811, 'reach:Environments.DiscreteWorld.add_cell_component': 1900,
                     'reach:Environments.LookupGenerator.__call__': 1000},
           'thorough': {'column_comparisons': 400000}}
 EXHAUSTIVE = {}
@@ -111,7 +111,7 @@ def case_history(ctx, case):
     for step in range(rng.randint(5, 20)):
         x = rng.random()
         free = [n for n in names if n not in shadow]
-        if x < 0.62 and free:
+        if x < 0.58 and free:
             name = rng.choice(free)
             salt = step + 1
             src = rng.choice(['callable', 'list', 'numpy', 'constant', 'lookup3', 'lookup_lowdim' if lowdim_ok else 'lookup3', 'subclassed'])
@@ -237,6 +237,46 @@ def case_history(ctx, case):
                     verify_after.append('extra')
                 ctx.count('source_mutations')
                 verify(f'after mutating the caller\'s {src} used for {name}')
+        elif x < 0.60 and free:
+            # a callable source that FAILS part-way (any exception class, StopIteration and KeyboardInterrupt-likes included): the error
+            # reaches the caller and no half-assigned component appears; the world is used on afterwards
+            from vlib import faults
+            name = rng.choice(free)
+            cls = faults.pick(rng)
+            n_ok = rng.randrange(ncells)
+            seen_ = [0]
+
+            def failing(pos, cells, n_ok=n_ok, cls=cls):
+                seen_[0] += 1
+                if seen_[0] > n_ok:
+                    raise faults.make(cls, 'source fails part-way')
+                return seen_[0]
+            _, err = faults.attempt(env.add_cell_component, name, failing)
+            ctx.count('sources_failing_part_way')
+            trace.append(('add-failing', name, cls.__name__, n_ok))
+            if err is None:
+                raise CaseViolation(f'add_cell_component returned normally although its source raised {cls.__name__} after {n_ok} of {ncells} cells '
+                                    f'(the component cannot hold what its source assigns)', shape=ext, column=env.cells[name].tolist()[:12] if name in env.cells else None)
+            verify(f'after a source for {name} failed part-way ({cls.__name__})')
+        elif x < 0.62 and len(free) >= 2 and ncells >= 2:
+            # a callable source that, while it runs, adds ANOTHER component with a callable source (a helper created lazily): both hold
+            # what their sources assign
+            name, helper = rng.sample(free, 2)
+            j_re = rng.randrange(1, ncells)
+            salt = step + 1
+            state_ = [0]
+
+            def outer(pos, cells, salt=salt):
+                state_[0] += 1
+                if state_[0] == j_re + 1 and helper not in env.cells.columns:
+                    env.add_cell_component(helper, lambda p_, c_: code(p_, salt) + 7)
+                return code(pos, salt)
+            env.add_cell_component(name, outer)
+            shadow[name] = [code(p_, salt) for p_ in table]
+            shadow[helper] = [code(p_, salt) + 7 for p_ in table]
+            ctx.count('sources_that_add_another_component_while_running')
+            trace.append(('add-reentrant', name, helper, j_re))
+            verify(f'after {name} was added by a source that added {helper} while running')
         elif x < 0.66 and shadow:
             # an existing name is added again through add_cell_component: the values are replaced, nothing else changes; afterwards the
             # name can be removed exactly once
